@@ -2,6 +2,13 @@
 # apply a seeded change to /repo, run the named checks, undo it. usage: try_mutant.sh <patch> <tier> <Cxx> [Cxx ...]
 set -u
 P=$1; TIER=$2; shift 2
+# whatever happens (a closed pipe on stdout included), /repo and the evidence of the unchanged tree are restored
+trap '' PIPE
+restore() {
+  git -C /repo checkout -q -- .
+  if [ -d /verif/.work/evidence.keep ]; then rm -rf /verif/evidence && mv /verif/.work/evidence.keep /verif/evidence; fi
+}
+trap restore EXIT
 cd /repo && git checkout -q -- . && git apply $P || { echo "patch does not apply"; exit 2; }
 # evidence written while the change is applied must not replace the evidence of the unchanged tree
 rm -rf /verif/.work/evidence.keep && cp -r /verif/evidence /verif/.work/evidence.keep
@@ -10,6 +17,5 @@ for p in "$@"; do
   echo "$p $TIER exit=$rc new_signatures: $(echo "$out" | grep -A1 '^VIOLATION' | grep signature | sed 's/  signature: //' | tr '\n' ';' | cut -c1-400)"
   echo "   $(echo "$out" | grep -E 'HELD|VIOLATED|INCONCLUSIVE' | tail -1)"
 done
-git -C /repo checkout -q -- .
-rm -rf /verif/evidence && mv /verif/.work/evidence.keep /verif/evidence
-git -C /repo status --short | head -3
+restore
+git -C /repo status --short | head -3 || true
